@@ -355,7 +355,7 @@ theorem produceLoop_cursor (s : StreamScript) : ∀ (fuel k : Nat),
         · simp [h2]
         · simp only [h2, Bool.false_eq_true, if_false]
           have := ih (k + 1)
-          omega
+          exact ⟨by omega, by omega, this.2.2⟩
 
 /-! ### Non-vacuity -/
 
